@@ -365,7 +365,21 @@ def run_raster(case):
             return Outcome(failure("load_average_metadata", "medium_index not recorded"), True, labels)
         if not (np.allclose(avg.x.values, np.arange(nx) * sx, rtol=1e-14, atol=0) and np.allclose(avg.y.values, np.arange(ny) * sy, rtol=1e-14, atol=0)):
             return Outcome(failure("load_average_coordinates", "coordinates not i*spacing"), True, labels)
-        return Outcome(None, k >= 2, labels)
+        # ---- history: the averaged image (whose noise level load_average stores array-valued) through HDF5
+        import holopy as hp
+        h5 = os.path.join(td, "average.h5")
+        try:
+            hp.save(h5, avg)
+            back = hp.load(h5)
+        except Exception as e:
+            return Outcome(failure("h5_exception", "%s when the result of load_average (%d files) is saved to HDF5 and reloaded: %s"
+                                   % (type(e).__name__, k, str(e)[:200]), exc=type(e).__name__, after="load_average"), True, labels)
+        if tuple(back.dims) != tuple(avg.dims) or not np.array_equal(back.values, avg.values):
+            return Outcome(failure("h5_values", "averaged image changes through HDF5"), True, labels)
+        msg = attrs_equal(avg, back, "hdf5 after load_average")
+        if msg:
+            return Outcome(failure("h5_metadata", msg, after="load_average"), True, labels)
+        return Outcome(None, k >= 2, labels + ["average_through_hdf5"])
 
 
 # ------------------------------------------------------------------------------------------ 5
